@@ -61,8 +61,8 @@ class ConfidenceMonitor:
         ctx = self.ctx
         cfgp = ctx.cfg["pipeline"][ev["name"]]
         method = cfgp["confidence_method"]
-        parts = ev["name"].split(".")
-        sfx = "." + parts[1] if len(parts) == 2 else ""
+        # the suffix is what follows the step kind in the step name
+        sfx = "." + ev["name"].split(".", 1)[1] if "." in ev["name"] else ""
         a, b = pre["cv"], post["cv"]
         if a is None or b is None:
             return
